@@ -33,6 +33,15 @@ def rule_file_write(prog, res, rule="R-WRITEALL"):
                     T = [s for s in T if not neg(s)]
             return T, F
     an = OsContract(prog)
+
+    def m_pwrite(an_, f_, e, st):
+        a = e["args"]
+        buf = an_.eval(f_, a[1], st)[0][0]
+        off = an_.eval(f_, a[3], st)[0][0]
+        r = an_.fresh(st, "call:pwrite", False)
+        st.tags["pw"] = {"buf": buf, "off": off, "r": r, "node": e}
+        return [(r, st)]
+    an.models["pwrite"] = m_pwrite
     # the cells written in the loop body: the buffer cursor is the pointer
     # parameter among them, the retry counter the int local the exit tests
     written = {}
@@ -83,6 +92,28 @@ def rule_file_write(prog, res, rule="R-WRITEALL"):
                  "file_write can go round its loop without advancing the buffer cursor and without counting a retry: a write that keeps making no progress never returns")
     else:
         res.oblige(rule, inst, True, "%d back-edge state(s)" % len(rec["back"]), f.loc())
+    # ADVANCE: what the next iteration hands to pwrite is this iteration's
+    # buffer position and file offset, each advanced by the bytes written
+    bad = None
+    seen_pw = False
+    for s in rec["back"]:
+        pw = s.tags.get("pw")
+        if not pw:
+            continue
+        seen_pw = True
+        nb = an.eval(f, pw["node"]["args"][1], s.copy())[0][0]
+        no = an.eval(f, pw["node"]["args"][3], s.copy())[0][0]
+        if not s.entails_eq(L.lsub(nb, L.ladd(pw["buf"], pw["r"]))):
+            bad = "the buffer position handed to the next pwrite is not the previous one plus the bytes written"
+        if not s.entails_eq(L.lsub(no, L.ladd(pw["off"], pw["r"]))):
+            bad = "the file offset handed to the next pwrite (%s) is not the previous one plus the bytes written: after a short write the rest of the packet lands at the wrong place in the file" % ir.render(pw["node"]["args"][3])
+    inst = "file_write: buffer position and file offset both advance by the bytes written"
+    if not seen_pw:
+        res.fail(rule, inst, "%s|file_write|advance" % rule, f.loc(), "file_write's loop does not call pwrite")
+    elif bad:
+        res.fail(rule, inst, "%s|file_write|advance" % rule, f.loc(), "file_write: " + bad)
+    else:
+        res.oblige(rule, inst, True, "", f.loc())
     # COMPLETE
     bad = False
     nz = 0
